@@ -221,7 +221,7 @@ let () =
       (* a sequence of connections: for each one a fresh encoder and a fresh decoder (Model.v conns_run) *)
       let local = n_of_hex local and remote = n_of_hex remote in
       let conns = List.map (fun c -> List.map msg_of (kids c)) (kids (parse_tree payload)) in
-      let v2 = (codec = "v2") in
+      let v2 = (codec = "v2" || codec = "v2q") in
       let wf = List.for_all (fun ms -> if v2 then v2_seq_ok local remote st0 ms else plain_seq_ok ms) conns in
       let results = if v2 then conns_run local remote (conns_encode conns)
                     else List.map plain_run (List.map plain_encode_all conns) in
